@@ -23,7 +23,7 @@ CLAIMED = {
             "DESIGN.md §2.10"),
     "C12": ("exploration",
             "rapid-generated override configurations and requests; differential on decoded frames (reference codec) plus byte identity for untouched requests and a framing witness request",
-            "Any subset of consistency levels as the unsupported list and any override level; requests over the full option space, versions, flags and compressions; SELECT/DML/unknown-id ground truth by construction; PREPARE immediately followed by EXECUTE with wide PREPARED results; the backend's frame must be byte-identical (not overridden) or decode to the client's request with only the consistency replaced, with the same flags and payload and a correct length (a second request follows immediately on the same backend connection).",
+            "Any subset of consistency levels as the unsupported list and any override level; requests over the full option space, versions, flags and compressions; SELECT/DML/unknown-id ground truth by construction; PREPARE immediately followed by EXECUTE with wide PREPARED results; EXECUTE of the id before its PREPARE on the same connection; SELECT spellings with comments and bare CRs; client-compressed incompressible bodies around 2^15/2^16/2^17; the backend's frame must be byte-identical (not overridden) or decode to the client's request with only the consistency replaced, with the same flags and payload and a correct length (a second request follows immediately on the same backend connection).",
             "Configuration goes through proxy.Config via the verif hook; option spellings are C20's business.",
             "DESIGN.md §2.12"),
     "C13": ("exploration",
@@ -33,11 +33,11 @@ CLAIMED = {
             "DESIGN.md §2.13"),
     "C01": ("fault_enumeration",
             "rapid-generated concurrent request storms with scripted per-attempt backend faults and drop/release schedules; history invariant (one response per request stream)",
-            "Generated histories of 1..4 pipelining clients against a scripted fake cluster (every error kind, hold, silence, connection drop before/after reply, simultaneous drops of several hosts), plus slow-consumer floods beyond the write-queue size and EXECUTEs of forgotten statements while nearly all 2048 backend stream ids are held; the oracle counts response frames per request stream after a positive wait, an OPTIONS fence and socket quiescence. The property quantifies over schedules and fault sequences, which a search over generated fault scripts explores but cannot exhaust.",
+            "Generated histories of 1..4 pipelining clients against a scripted fake cluster (every error kind, hold, silence, connection drop before/after reply, simultaneous drops of several hosts; fast-idle cases in which the proxy itself gives up silent hosts or cancels the pool of a removed host under parked requests; backends that attach warnings to errors; statements in re-spelled form with comments and bare CRs), plus slow-consumer floods beyond the write-queue size and EXECUTEs of forgotten statements while nearly all 2048 backend stream ids are held; the oracle counts response frames per request stream after a positive wait, an OPTIONS fence and socket quiescence. The property quantifies over schedules and fault sequences, which a search over generated fault scripts explores but cannot exhaust.",
             "Internal goroutine interleavings are sampled, not enumerated; 'never two' is decided after a fence plus 8ms of silence; replies lost together with a reset connection are attributed to the connection loss.",
             "DESIGN.md §2.1"),
     "C02": ("exploration",
-            "rapid-generated collision histories (equal stream ids on several clients, held replies released in generated permutations, stream-id recycling, stream exhaustion, late heartbeat replies, immediate reuse of client stream ids across forwarded and locally answered requests); token round-trip oracle",
+            "rapid-generated collision histories (equal stream ids on several clients, held replies released in generated permutations, stream-id recycling, stream exhaustion with up to 2^17 further requests refused while every id is held, late heartbeat replies, immediate reuse of client stream ids across forwarded and locally answered requests); token round-trip oracle",
             "Every forwarded request carries a unique token that the fake backend echoes; the check compares the token received on (client, stream) with the one sent there, across >2048-request recycling of backend stream ids, >2048 simultaneously held requests and late replies to timed-out internal requests; a sequential reuse family checks that every frame is the answer (backend result, backend error, or the proxy's own result/error) to the request outstanding on its stream and that nothing else arrives.",
             "Trusts the token echo of the fake backend; backend stream ids themselves are not inspected.",
             "DESIGN.md §2.2"),
@@ -57,7 +57,7 @@ CLAIMED = {
             "Ground truth is the generator's derivation; the promised-idempotent sub-grammar excludes function calls, casts and set removal (checked for stability only).",
             "DESIGN.md §2.6"),
     "C11": ("exploration",
-            "differential and round-trip testing against the reference protocol codec over generated messages, prefixes and mutants (rapid); native fuzz target in thorough",
+            "differential and round-trip testing against the reference protocol codec over generated messages, boundary-size messages (bodies padded to 2^15 and to multiples of 2^16 up to 1 MiB, +- a few dozen bytes), prefixes and mutants (rapid); native fuzz target in thorough",
             "QUERY/EXECUTE/BATCH messages over the full option space for v3,v4,v5,DSEv1,DSEv2 are encoded by the reference codec and decoded the way the proxy does; extracted fields must agree, re-encoding must reproduce the bytes, cuts inside the leading fields must be rejected, accepted mutants must re-encode to a fixpoint and agree with the reference decoder.",
             "The reference library is the wire-format oracle; leniency it shares with the partial codecs (negative [long string] length read as empty) is not flagged.",
             "DESIGN.md §2.11"),
@@ -68,7 +68,7 @@ CLAIMED = {
             "DESIGN.md §2.15"),
     "C07": ("exploration",
             "rapid-generated multi-client histories (USE in every spelling, data requests, parallel USE, reconnects) against a per-client model of (version, compression, keyspace); oracle on the backend connection each request arrived on",
-            "2..5 clients of different versions/compressions (client reconnects, loss and replacement of a host's backend connections), generated keyspace sets including names that differ only by case or need quoting; every tokenised QUERY/PREPARE/EXECUTE/BATCH must arrive on a backend connection whose recorded keyspace, version and compression equal the model's; USE must answer SET_KEYSPACE with the folded name or relay the backend's error and leave the state unchanged; a quarter of the cases put scheduling pressure (spinning goroutines on every processor) on the proxy while a USE of a missing keyspace is in flight.",
+            "2..5 clients of different versions/compressions (client reconnects, loss and replacement of a host's backend connections, hosts that join after the sessions exist, USE refused by the backend with overloaded/bootstrapping/unauthorized), generated keyspace sets including names that differ only by case or need quoting; every tokenised QUERY/PREPARE/EXECUTE/BATCH must arrive on a backend connection whose recorded keyspace, version and compression equal the model's; USE must answer SET_KEYSPACE with the folded name or relay the backend's error and leave the state unchanged; a quarter of the cases put scheduling pressure (spinning goroutines on every processor) on the proxy while a USE of a missing keyspace is in flight.",
             "The fake backend implements Cassandra's identifier rule for USE; interleavings of parallel USE are sampled.",
             "DESIGN.md §2.7"),
     "C08": ("fault_enumeration",
@@ -78,27 +78,27 @@ CLAIMED = {
             "DESIGN.md §2.8"),
     "C14": ("exploration",
             "rapid-generated registration/disconnect/event/failover histories against a set model of registered clients; exact-delivery oracle using an ordered marker event and an OPTIONS fence",
-            "1..5 clients plus a witness; REGISTER for any subset of event types, reconnects, events of all kinds and schema targets, control-connection failover (also past a lower-version host), clients dying while their reader is busy; after every emit each registered client has exactly one new EVENT equal to the emitted one and every other client none.",
+            "1..5 clients plus a witness; REGISTER for any subset of event types, reconnects, events of all kinds and schema targets, control-connection failover (also past a lower-version host), clients dying while their reader is busy, registered clients that stall during a burst of thousands of events and then read on or vanish; after every emit each registered client has exactly one new EVENT equal to the emitted one and every other client none.",
             "Events emitted while no control connection exists are not owed; the version byte of EVENT frames is not asserted.",
             "DESIGN.md §2.14"),
     "C16": ("fault_enumeration",
             "rapid-generated reconnect-policy call sequences against an envelope model; rapid-generated backend fault sequences with bounded-eventuality convergence oracle (routing == live members); readiness endpoint of the real binary across an outage",
-            "Backoff: log-uniform base/max, NextDelay/Reset/Clone sequences. Healing: nodes added/removed/restarted, pooled and control connections dropped singly and together, silent connections, total outage, refusing node (attempt-rate bound), with millisecond timers; after each action probe requests must be routed to exactly the live members, pools must be complete, exactly one control connection must exist, within 400x the timers. Removed nodes either hang up (decommission) or keep their established connections (only unlisted), so that 'requests stop going to it' is observable; a quarter of the cases first create backend sessions that never come up (USE of a missing keyspace).",
+            "Backoff: log-uniform base/max, NextDelay/Reset/Clone sequences. Healing: nodes added/removed/restarted, pooled and control connections dropped singly and together, silent connections, total outage, nodes that accept connections but fail the system.local query (outage must be reported and never reset), refusing node (attempt-rate bound), with millisecond timers; after each action probe requests must be routed to exactly the live members, pools must be complete, exactly one control connection must exist, within 400x the timers. Removed nodes either hang up (decommission) or keep their established connections (only unlisted), so that 'requests stop going to it' is observable; a quarter of the cases first create backend sessions that never come up (USE of a missing keyspace).",
             "Liveness is decided as a bounded eventuality with a stall watchdog (missed bound on a stalled machine = inconclusive); the 10s refresh window is shortened through a verif hook; reconnect bases above 2^44 ns are not generated; surplus backend sockets and dial attempts to removed nodes are not asserted (the property speaks about requests).",
             "DESIGN.md §2.16"),
     "C17": ("fault_enumeration",
             "rapid-generated hostile client byte streams (structured: hostile strings in every field, then header/framing mutations) and hostile backend replies, against the proxy as a child process; survival + canary-service oracle",
-            "The real binary (or a host program with fast timers) runs as a child; generated hostile clients and scripted hostile backend replies (to forwarded and to the proxy's own requests), clients that pipeline thousands of requests, never read and vanish; after each case the process must be alive, a new client must be able to connect, and a well-behaved canary's system query, forwarded query and prepared execute must be answered correctly. A sixth of the client cases run against a TLS listener (--proxy-cert-file): the hostile frames inside a TLS session, or a peer that never completes / garbles the TLS handshake and stays connected.",
+            "The real binary (or a host program with fast timers) runs as a child; generated hostile clients and scripted hostile backend replies (malformed, on wrong streams, or well-formed but not fitting the request; to forwarded and to the proxy's own requests), odd-length prepared ids in EXECUTE/BATCH that the backend then fails, clients that pipeline thousands of requests, never read and vanish; after each case the process must be alive, a new client must be able to connect, and a well-behaved canary's system query, forwarded query and prepared execute must be answered correctly. A sixth of the client cases run against a TLS listener (--proxy-cert-file): the hostile frames inside a TLS session, or a peer that never completes / garbles the TLS handshake and stays connected.",
             "Declared lengths above 16 MiB are out of scope; the TLS family uses the real binary only; the canary retries for up to 4s after hostile backend replies.",
             "DESIGN.md §2.17"),
     "C18": ("exploration",
-            "the generated scenario families of C01/C02/C07/C08/C14/C16 plus a generated concurrent client/chaos mix (pipelined handshakes, membership churn under traffic), executed with harness and proxy compiled with -race; oracle: the Go race detector (reports with an access site in cql-proxy)",
+            "the generated scenario families of C01/C02/C07/C08/C14/C16 plus a generated concurrent client/chaos mix (pipelined handshakes, membership churn under traffic, hosts of different DC/release) and a control-connection fail-over family, executed with harness and proxy compiled with -race; oracle: the Go race detector (reports with an access site in cql-proxy)",
             "Each generated case runs many proxy goroutines against shared state (sessions, pools, prepared cache, load balancer, event fan-out, handshake state) while the backend injects faults; every race report inside cql-proxy is a violation identified by the pair of functions; 'concurrent map' fatal errors likewise.",
             "A dynamic detector: no false positives, but only races on executions that occurred; functional oracles are ignored here.",
             "DESIGN.md §2.18"),
     "C19": ("exploration",
             "rapid-generated bundle host names and server certificate chains from an in-process PKI; TLS probe servers; accept/reject oracle by construction, cross-checked with a plain crypto/tls client",
-            "Valid chains (leaf, leaf+intermediate, wildcard) must be accepted with SNI = node id, the bundle's client certificate and then STARTUP; every invalid chain (other CA, forged issuer name, self-signed, wrong/sibling name, CN-only, expired / not yet valid, missing intermediate) must fail with zero application bytes sent, for both the metadata service and database nodes; a server that turns invalid after a verified connection (same session-ticket keys) must be refused on the next connection of the same endpoint.",
+            "Chain stuffing (an invalid first certificate followed by a copy of a genuine one) is among the invalid kinds. Valid chains (leaf, leaf+intermediate, wildcard) must be accepted with SNI = node id, the bundle's client certificate and then STARTUP; every invalid chain (other CA, forged issuer name, self-signed, wrong/sibling name, CN-only, expired / not yet valid, missing intermediate) must fail with zero application bytes sent, for both the metadata service and database nodes; a server that turns invalid after a verified connection (same session-ticket keys) must be refused on the next connection of the same endpoint.",
             "Names resolve through an in-process stub DNS; validity deltas >= 2 minutes.",
             "DESIGN.md §2.19"),
     "C20": ("exploration",
